@@ -17,6 +17,37 @@ static KSI_Integer *mkint(const char *s) {
 }
 static void putint(KSI_Integer *i) { if (i == NULL) printf("x"); else printf("%llu", (unsigned long long)KSI_Integer_getUInt64(i)); }
 
+/* ---- mock sub-services for the `ha` op ---- */
+#define MQ 64
+typedef struct { size_t id; KSI_AsyncHandle *held[MQ]; int nheld; KSI_AsyncHandle *ready[MQ]; int nready; size_t opts[64]; } Mock;
+static int g_accept[8];
+static int m_add(void *impl, KSI_AsyncHandle *h) {
+	Mock *m = (Mock *)impl;
+	if (!g_accept[m->id] || m->nheld >= MQ) return KSI_ASYNC_REQUEST_CACHE_FULL;
+	h->parentId = m->id; h->state = KSI_ASYNC_STATE_WAITING_FOR_RESPONSE;
+	m->held[m->nheld++] = h;
+	return KSI_OK;
+}
+static int m_run(void *impl, int (*rh)(void *), KSI_AsyncHandle **h, size_t *w) {
+	Mock *m = (Mock *)impl; (void)rh;
+	if (h != NULL) {
+		*h = NULL;
+		if (m->nready > 0) { *h = m->ready[0]; memmove(m->ready, m->ready + 1, sizeof(m->ready[0]) * (size_t)(--m->nready)); }
+	}
+	if (w != NULL) *w = (size_t)(m->nheld + m->nready);
+	return KSI_OK;
+}
+static int m_pending(void *impl, size_t *c) { *c = (size_t)((Mock *)impl)->nheld; return KSI_OK; }
+static int m_received(void *impl, size_t *c) { *c = (size_t)((Mock *)impl)->nready; return KSI_OK; }
+static int m_setopt(void *impl, const int o, void *v) { ((Mock *)impl)->opts[o] = (size_t)v; return KSI_OK; }
+static int m_getopt(void *impl, const int o, void *v) { *(size_t *)v = ((Mock *)impl)->opts[o]; return KSI_OK; }
+static void m_free(void *impl) {
+	Mock *m = (Mock *)impl; int i;
+	for (i = 0; i < m->nheld; i++) KSI_AsyncHandle_free(m->held[i]);
+	for (i = 0; i < m->nready; i++) KSI_AsyncHandle_free(m->ready[i]);
+	free(m);
+}
+
 static void do_line(char *work, const char *orig) {
 	char *w[4]; int n = split_words(work, w, 4);
 	(void)orig;
@@ -88,6 +119,58 @@ static void do_line(char *work, const char *orig) {
 		KSI_HighAvailabilityRequest_free(hr);
 		KSI_AsyncHandle_free(req);
 		KSI_HighAvailabilityService_free(has);
+	} else if (n == 3 && !strcmp(w[0], "ha")) {
+		/* ha <n> <steps>: a:<mask> add a request (mask = which endpoints accept) | o:<ep>:r | o:<ep>:e<code> | run
+		 * => one token per step: add status, "-" for o, for run the handle popped: R<origin>/F<code>/N<code>/- */
+		KSI_AsyncService *ha = NULL; KSI_HighAvailabilityService *has; Mock *ep[8]; int ne = atoi(w[1]), i, first = 1;
+		char *save = NULL, *tok;
+		if (KSI_SigningHighAvailabilityService_new(ctx, &ha) != KSI_OK) { printf("NEW-FAILED"); return; }
+		has = (KSI_HighAvailabilityService *)ha->impl;
+		for (i = 0; i < ne && i < 8; i++) {
+			KSI_AsyncService *sv = NULL;
+			KSI_AbstractAsyncService_new(ctx, &sv);
+			ep[i] = (Mock *)calloc(1, sizeof(Mock)); ep[i]->id = (size_t)i;
+			sv->impl = ep[i]; sv->impl_free = m_free; sv->addRequest = m_add; sv->run = m_run;
+			sv->getPendingCount = m_pending; sv->getReceivedCount = m_received; sv->setOption = m_setopt; sv->getOption = m_getopt;
+			KSI_AsyncServiceList_append(has->services, sv);
+		}
+		for (tok = strtok_r(w[2], ",", &save); tok; tok = strtok_r(NULL, ",", &save)) {
+			if (!first) putchar(','); first = 0;
+			if (tok[0] == 'a') {
+				KSI_AggregationReq *rq = NULL; KSI_DataHash *hs = NULL; KSI_AsyncHandle *h = NULL; int r;
+				{ size_t ml = strlen(tok + 2); for (i = 0; i < 8; i++) g_accept[i] = ((size_t)i < ml && tok[2 + i] == '1'); }
+				KSI_AggregationReq_new(ctx, &rq);
+				KSI_DataHash_create(ctx, "x", 1, KSI_HASHALG_SHA2_256, &hs);
+				KSI_AggregationReq_setRequestHash(rq, hs);
+				KSI_AsyncAggregationHandle_new(ctx, rq, &h);
+				r = KSI_AsyncService_addRequest(ha, h);
+				if (r != KSI_OK) KSI_AsyncHandle_free(h);
+				printf("%d", r);
+			} else if (tok[0] == 'o') {
+				int e = atoi(tok + 2); char *c = strchr(tok + 2, ':'); Mock *m = (e >= 0 && e < ne) ? ep[e] : NULL;
+				if (m && m->nheld > 0 && c) {
+					KSI_AsyncHandle *h = m->held[0];
+					memmove(m->held, m->held + 1, sizeof(m->held[0]) * (size_t)(--m->nheld));
+					if (c[1] == 'r') h->state = KSI_ASYNC_STATE_RESPONSE_RECEIVED;
+					else { h->state = KSI_ASYNC_STATE_ERROR; h->err = atoi(c + 2); }
+					m->ready[m->nready++] = h;
+					putchar('+');
+				} else putchar('-');
+			} else if (tok[0] == 'r') {
+				KSI_AsyncHandle *h = NULL; size_t waiting = 0;
+				int r = KSI_AsyncService_run(ha, &h, &waiting);
+				if (r != KSI_OK) printf("RUN%d", r);
+				else if (h == NULL) putchar('-');
+				else {
+					if (h->state == KSI_ASYNC_STATE_ERROR_NOTICE) printf("N%d", h->err);
+					else if (h->state == KSI_ASYNC_STATE_RESPONSE_RECEIVED) printf("R%zu", h->parentId);
+					else if (h->state == KSI_ASYNC_STATE_ERROR) printf("F%d", h->err);
+					else printf("?%d", h->state);
+					KSI_AsyncHandle_free(h);
+				}
+			}
+		}
+		KSI_AsyncService_free(ha);
 	} else printf("UNKNOWN-OP");
 }
 
